@@ -8,6 +8,9 @@ import (
 )
 
 func blocksizeOfFile(name string) uint64 {
+	if bs := verifBlocksize(name); bs != 0 {
+		return bs
+	}
 	stat, err := os.Stat(name)
 	if err != nil {
 		return DefaultBlockSize
